@@ -583,3 +583,25 @@ def tlaps(module, timeout=900):
         return n, n
     finally:
         shutil.rmtree(d, ignore_errors=True)
+
+
+def sample_call(trace, start_events=('Call',), min_len=4, max_lines=20000, max_events=10):
+    """a representative segment (one call with its Emit/Return events) for the evidence: the first one with >= min_len events"""
+    cur, best = [], []
+    with open(trace) as f:
+        for k, ln in enumerate(f):
+            if k > max_lines:
+                break
+            try:
+                e = json.loads(ln)
+            except ValueError:
+                continue
+            if e.get('e') in start_events:
+                if len(cur) >= min_len:
+                    return cur[:max_events]
+                if len(cur) > len(best):
+                    best = cur
+                cur = [e]
+            else:
+                cur.append(e)
+    return (cur if len(cur) >= len(best) else best)[:max_events]
